@@ -19,7 +19,9 @@
         requires (counting all earlier rounds)
      7  (strict reading, see findings) the rounds in which it was a source are not consecutive
      8  Evict called in dry-run mode
-     9  malformed observable *)
+     9  malformed observable
+    10  NodeFit is on and the pod has no usage metrics or fits no target node even when the
+        reservations made for other pods are ignored *)
 From Coq Require Import String List ZArith Bool.
 From Verif Require Import C18.Model.
 Import ListNotations.
@@ -45,6 +47,14 @@ Definition n_low (tbl : list row) : Z :=
 Definition nothing_cond (tbl : list row) (psize : Z) : bool :=
   no_source tbl || (n_low tbl =? 0) || (n_low tbl =? psize).
 
+(* NodeFit: the pod reports usage and, added to the MEASURED usage of some target node, stays
+   within that node's high threshold (necessary for podFitsAnyNodeWithThreshold, which also
+   counts what it has reserved for pods examined before) *)
+Definition fit_ok (c : cfg) (prod : bool) (tbl : list row) (p : pod) : bool :=
+  negb (cfit c) ||
+  (pmet p && existsb (fun t => negb (over (vadd (r_use prod t) (pfit c p)) (r_high prod t)))
+                     (targets prod tbl)).
+
 Section Round.
   Variable c : cfg.
   Variable tbl : list row.
@@ -59,6 +69,7 @@ Section Round.
       all_pos (snd st) = true ->                    (* their headroom is not used up *)
       find_pod pv (r_pods prod r) = Some p ->       (* a pod of that node ... *)
       pfilt_ok p = true ->                          (* ... that passes the filters *)
+      fit_ok c prod tbl p = true ->                 (* ... and, with NodeFit, fits a target *)
       valid_pass prod (apply_ev c x p st) evs st' ->
       valid_pass prod st ((x, pv) :: evs) st'.
 
@@ -89,6 +100,7 @@ Section Round.
         else match find_pod pv (r_pods prod r) with
              | None => (3, st)
              | Some p => if negb (pfilt_ok p) then (3, st)
+                         else if negb (fit_ok c prod tbl p) then (10, st)
                          else check_pass prod t (apply_ev c x p st)
              end
       end
@@ -175,8 +187,10 @@ Definition prop_code (c : cfg) (ns : list nstat) (rounds : list (list nround)) (
 Definition strict_code (c : cfg) (ns : list nstat) (rounds : list (list nround)) (obs : list (list ev)) : Z :=
   check_strict c (tables c ns rounds) obs [].
 
-(* well-formed input: pod names are unique on a node *)
+(* well-formed input: pod names are unique on a node, reported usage is not negative *)
 Fixpoint nodupb (l : list Z) : bool :=
   match l with [] => true | x :: t => negb (existsb (Z.eqb x) t) && nodupb t end.
+Definition wf_nround (r : nround) : bool :=
+  nodupb (map pid (rpods r)) && forallb (fun p => (0 <=? pcpu p) && (0 <=? pmem p)) (rpods r).
 Definition wf_rounds (rounds : list (list nround)) : bool :=
-  forallb (forallb (fun r => nodupb (map pid (rpods r)))) rounds.
+  forallb (forallb wf_nround) rounds.
